@@ -108,7 +108,7 @@ FromCells(cs) ==
 SyncPositions(s) == {s.sync[i] : i \in DOMAIN s.sync}
 
 (* ----------------------------------------------------------------------- *)
-(* the nine shapes of the design model (<= 14 cells each); m7..m9 contain  *)
+(* the ten shapes of the design model  (<= 14 cells each); m7..m9 contain  *)
 (* one LARGE stanza each (70 KiB of text, 300 KiB in an attribute value    *)
 (* with a multi-byte character, 1.1 MiB of child elements) whose pieces    *)
 (* end after 4, 63, 64, 65 KiB ..., so that the reads of a composition     *)
@@ -150,6 +150,11 @@ ModelShapes ==
               Cell("st", 1, "tag"), BigCell("st", 1, "child", 16), BigCell("st", 1, "child", 48), BigCell("st", 1, "child", 1),
               BigCell("st", 1, "child", 1061), Cell("st", 1, "tag"),
               Cell("ws", 0, "ws"), Cell("st", 2, "tag"), Cell("cl", 0, "tag"), Cell("cl", 0, "tag")>>
+ \* mA: the size class of the HEADER: a stream header of ~5 KiB (4 KiB in one attribute value, then a multi-byte
+ \* character, more attributes), so that a read may end anywhere inside a header far longer than usual
+ @@ "mA" :> <<Cell("hdr", 1, "decl"), Cell("hdr", 1, "tag"), BigCell("hdr", 1, "attr", 4), Cell("hdr", 1, "mb1"), Cell("hdr", 1, "mb2"),
+              Cell("hdr", 1, "attr"), Cell("hdr", 1, "tag"),
+              Cell("st", 1, "tag"), Cell("st", 2, "tag"), Cell("cl", 0, "tag")>>
 
 (* ----------------------------------------------------------------------- *)
 (* geometry of a stream description                                         *)
